@@ -1,6 +1,7 @@
 #!/venv/bin/python
-"""Fills breaks / needs / history of the round-2 seeded defects from their NOTES.md and from the verdict their
-property's check gave when they were first filed (commit ed85cf1), i.e. before any strengthening."""
+"""Fills breaks / needs / history of the round-2 and round-3 seeded defects from their NOTES.md and from the verdict
+their property's check gave when they were first filed (round 2: commit ed85cf1; round 3: seeded/round3_first_run.log),
+i.e. before any strengthening."""
 import glob, json, os, re, subprocess
 
 VERIF = os.path.dirname(os.path.dirname(os.path.abspath(__file__)))
@@ -28,6 +29,37 @@ STRENGTHENED = {
 }
 
 
+STRENGTHENED3 = {
+    "C01": "inputs in other containers (Fortran / strided / read-only / list), integer dtypes, configuration by set_params / setattr / clone",
+    "C02": "configuration by set_params / setattr / clone; containers",
+    "C03": "fits through fit_transform; configuration routes; containers",
+    "C04": "fits through fit_transform; configuration routes; containers",
+    "C05": "fits through fit_transform; configuration routes; containers",
+    "C06": "a case with more than 2048 points; warm chains continued on a deep copy / unpickled copy; configuration routes",
+    "C07": "integer-typed X (arrays, nested lists) with y; containers",
+    "C08": "public readers called between links; chains continued on copies; thresholds exactly equal to a score (whole-number data)",
+    "C09": "per-call purity guard around every public call of the chain (intermediates handed on by the caller)",
+    "C10": "integer-typed features; configuration routes; containers",
+    "C11": "sizes on both sides of 256 / 1024 / 2048 / 4096 with an outlying last row; fitting (and rejection) through fit_transform",
+    "C12": "fit_transform(copy=False) / transform(copy=False); containers",
+    "C13": "the n_jobs=2 entry of the local measure",
+    "C14": "fits through fit_transform; configuration routes; containers",
+    "C15": "X and Y in independent memory layouts / containers",
+    "C16": "periodic cell given after construction (set_params / attribute)",
+    "C17": "exactly-zero descriptor weights; the metric handed over explicitly (function, partial, forwarding wrapper)",
+    "C18": "one / two samples, constant or zero first feature; configuration by attribute assignment; reduced-space oracle",
+    "C19": "configuration by attribute assignment (with and without a decoy configuration)",
+    "C20": "-",
+}
+FIRST3 = {}
+_p3 = os.path.join(VERIF, "seeded", "round3_first_run.log")
+if os.path.exists(_p3):
+    for line in open(_p3):
+        m_ = re.match(r"(C\d\d-r3[de])\s+C\d\d:(\w+)", line)
+        if m_:
+            FIRST3[m_.group(1)] = m_.group(2)
+
+
 def section(text, pat):
     m = re.search(r"^#+[^\n]*(" + pat + r")[^\n]*\n(.*?)(?=^#|\Z)", text, re.S | re.M | re.I)
     return m.group(2).strip() if m else ""
@@ -38,19 +70,26 @@ def squash(t, n):
     return t if len(t) <= n else t[: n - 1].rsplit(" ", 1)[0] + " ..."
 
 
-for mf in sorted(glob.glob(os.path.join(VERIF, "seeded", "*-r2*", "meta.json"))):
+for mf in sorted(glob.glob(os.path.join(VERIF, "seeded", "*-r[23]*", "meta.json"))):
     d = os.path.dirname(mf)
     m = json.load(open(mf))
     notes = open(os.path.join(d, "NOTES.md")).read()
     title = notes.splitlines()[0].lstrip("# ").strip()
-    title = re.sub(r"^(C\d\d\s*/?\s*)?(seed|defect)?\s*\(?[abc]\)?\s*", "", title, flags=re.I).lstrip(" -—:/").strip()
+    title = re.sub(r"^(C\d\d\s*/?\s*)?(seed|defect)?\s*\(?[abcde]\)?\s*(?=[-—:(/ ])", "", title, flags=re.I).lstrip(" -—:/").strip()
     m["breaks"] = squash(title, 220)
     m["needs"] = squash(section(notes, "need|manifest"), 330)
     kind = m["name"][-1]
-    m["kind"] = {"a": "history / state dependent", "b": "numeric regime dependent", "c": "configuration / argument-form dependent"}[kind]
+    m["kind"] = {"a": "history / state dependent", "b": "numeric regime dependent", "c": "configuration / argument-form dependent", "d": "boundary / extreme-size dependent", "e": "entry-point / protocol dependent"}[kind]
     rel = os.path.relpath(mf, VERIF)
     p = subprocess.run(["git", "-C", VERIF, "show", f"{FIRST}:{rel}"], capture_output=True, text=True)
     first = None
+    if "-r3" in m["name"]:
+        first = FIRST3.get(m["name"])
+        m["first_verdict"] = first
+        m["history"] = "caught as filed" if first == "caught" else f"{first or 'not run'} as filed; caught after the check gained: {STRENGTHENED3.get(m['property'], '?')}"
+        json.dump(m, open(mf, "w"), indent=1)
+        print(m["name"], first, "|", m["breaks"][:80], "|", m["needs"][:60])
+        continue
     if p.returncode == 0:
         first = json.loads(p.stdout).get("checks", {}).get("quick", {}).get(m["property"], {}).get("verdict")
     m["first_verdict"] = first
